@@ -396,11 +396,12 @@ func blockStringValue(in string) string {
 		}
 	}
 	if commonIndent > 0 {
-		for i, line := range lines {
-			if commonIndent > len(line) {
+		for i := 1; i < len(lines); i++ {
+			if commonIndent >= len(lines[i]) {
+				lines[i] = ""
 				continue
 			}
-			lines[i] = line[commonIndent:]
+			lines[i] = lines[i][commonIndent:]
 		}
 	}
 
